@@ -66,6 +66,8 @@ def score_check(ctx):
             run('sweep3x', r['out'], 'v3.0/v3.1 sweep of all base, temporal and environmental classes', n=stripe)
         if pid in ('C03', 'C10', 'C11'):
             run('lift3x', r['out'], 'v3 realisations (Modified metrics, undefined metrics)', n=K)
+        if pid == 'C12':
+            run('lift3x', r['out'], 'v3 severity steps of every written metric (Modified metrics included) on realisations', n=K)
     if pid in ('C05', 'C11', 'C12'):
         r = tlc20(ctx)
         run('sweep20', r['out'], 'v2.0 sweep of all 139,968,000 assignments', n=stripe)
